@@ -7,6 +7,7 @@ import (
 	"math/rand"
 	"sort"
 	"strings"
+	"sync"
 	"time"
 
 	server "github.com/yandex/pandora/examples/grpc/server"
@@ -533,6 +534,76 @@ func markerOfName(m proto.Message) string {
 	return ""
 }
 
+// runGrpcJSONDiscard: discard_overflow on, and the target answers one call 2.6 s late, so a run of
+// tokens is discarded. Every entry that was fired must still arrive exactly once with its own
+// name and metadata (ammo objects go back to the provider's pool on release — a discarded one
+// too), and fired + discarded must account for every entry.
+func runGrpcJSONDiscard(res *vkit.Result, instances, entries int) {
+	c := Case{Kind: "grpcjson-discard", Instances: instances, TimeoutMs: 5000, Shots: entries}
+	var b strings.Builder
+	for i := 0; i < entries; i++ {
+		fmt.Fprintf(&b, `{"tag":"t%d","call":"target.TargetService.Hello","payload":{"name":"d-%d"},"metadata":{"x-id":"%d"}}`+"\n", i, i, i)
+	}
+	path := vkit.WriteMem([]byte(b.String()))
+	defer vkit.RemoveMem(path)
+	tgt.ResetCalls()
+	var once sync.Once
+	tgt.Delay = func(rec *vkit.CallRec) time.Duration {
+		d := time.Duration(0)
+		if h, ok := rec.Req.(*server.HelloRequest); ok && h.Name == "d-40" {
+			once.Do(func() { d = 2600 * time.Millisecond })
+		}
+		return d
+	}
+	defer func() { tgt.Delay = nil }()
+	ec, err := vkit.DecodePools(map[string]any{"pools": []any{map[string]any{
+		"id": "p", "ammo": map[string]any{"type": "grpc/json", "file": path, "passes": 1}, "result": map[string]any{"type": "discard"},
+		"gun": gunConf(c, "grpc"), "rps": map[string]any{"type": "const", "ops": 150 * instances, "duration": "60s"},
+		"startup": map[string]any{"type": "once", "times": instances}, "discard_overflow": true,
+	}}})
+	if err != nil {
+		res.Violate("C20/grpcjson-discard/rejected", fmt.Sprintf("valid pool config rejected: %v", err), c)
+		return
+	}
+	aggr := &vkit.MockAggregator{}
+	ec.Pools[0].Aggregator = aggr
+	rr := vkit.RunEngine(ec, nil, 120*time.Second)
+	if rr.Hang {
+		res.Inconclusive(false, "grpc discard pool did not end within 120s")
+		return
+	}
+	if rr.Err != nil {
+		res.Violate("C20/grpcjson-discard/run-error", fmt.Sprintf("run ended with %v", rr.Err), c)
+		return
+	}
+	arrived := map[string]int{}
+	for _, call := range tgt.Calls() {
+		name := markerOfName(call.Req)
+		id := call.MD.Get("x-id")
+		if len(id) != 1 || name != "d-"+id[0] {
+			res.Violate("C20/grpcjson-discard/mixed-entry", fmt.Sprintf("a call arrived with name %q and x-id %v: message and metadata of different entries", name, id), c)
+			continue
+		}
+		arrived[name]++
+	}
+	dup := 0
+	for _, n := range arrived {
+		if n > 1 {
+			dup++
+		}
+	}
+	discarded := int(aggr.Discarded.Load())
+	if dup > 0 || len(arrived)+discarded != entries {
+		res.Violate("C20/grpcjson-discard/arrival", fmt.Sprintf("%d entries, %d discarded by the engine: %d distinct entries arrived (want %d), %d of them more than once", entries, discarded, len(arrived), entries-discarded, dup), c)
+	}
+	if discarded == 0 {
+		res.Inconclusive(false, "the 2.6 s answer did not make the engine discard any token")
+	}
+	res.Count("calls_matched", int64(len(arrived)))
+	res.Count("discard_runs_discarded_tokens", int64(discarded))
+	res.Eval(vkit.JSON(c), discarded > 0)
+}
+
 func main() {
 	vkit.Fs()
 	res := vkit.NewResult("grpc/json pools: 3–12 entries over Hello/Auth/List/Order of the example service with generated field combinations (unicode/quotes in strings, int64 as numbers within ±2^53 and as strings beyond), metadata maps, unknown methods / ill-typed payloads / unknown fields interleaved with good entries, shared-client on/off, 1–8 instances, configured timeout; grpc/scenario pools: two chained calls with payload and metadata templated from a csv row ([next]) and a value captured from the first response; distinct = distinct case descriptions; non-trivial = ≥ 2 entries or shots")
@@ -573,6 +644,7 @@ func main() {
 		}
 	}
 	runSlowScenario(res)
+	runGrpcJSONDiscard(res, 1, 700)
 	runTemplateErrorScenario(res, 1)
 	runTemplateErrorScenario(res, 3)
 	vkit.CheckRaceLog(res, "C20")
